@@ -217,7 +217,7 @@ func c07Modes(c *vh.Ctx) []c07Mode {
 		{"regex", []byte("()"), []byte("ab")},
 	}
 	if c.Thorough() {
-		for b := 0; b < 256; b++ {
+		for b := 0; b < 256; b += 1 + c.Rng.Intn(7) {
 			if b == '\n' {
 				continue
 			}
@@ -251,15 +251,22 @@ func c07LeanReq(m c07Mode, chunks [][]byte) string {
 	return fmt.Sprintf("scan %s %s %s", m.Name, vh.Hx(m.RS), strings.Join(vh.HexChunks(chunks), " "))
 }
 
-func main() { vh.Main("C07", runC07) }
+func main() {
+	vh.Main("C07", func(c *vh.Ctx) {
+		runC07(c)
+		if c07Extra != nil {
+			c07Extra(c)
+		}
+	})
+}
 
 func runC07(c *vh.Ctx) {
 	c.Rule("per RS setting: random inputs over a small alphabet containing the separator's bytes; every chunking of short inputs " +
 		"(all 2^(n-1) cut sets), byte-at-a-time and every single cut for longer ones, cuts around the 64 KiB buffer edge; " +
 		"a case is (RS, input, chunking); non-trivial = the input contains at least one separator occurrence and the chunking has a cut")
 	modes := c07Modes(c)
-	maxAll := c.N(8, 11)     // inputs up to this length get every chunking
-	nInputs := c.N(150, 500) // inputs per mode
+	maxAll := c.N(8, 10)     // inputs up to this length get every chunking
+	nInputs := c.N(150, 300) // inputs per mode
 	type job struct {
 		m      c07Mode
 		input  []byte
@@ -427,5 +434,9 @@ func runC07(c *vh.Ctx) {
 		}
 	}
 }
+
+func init() { c07Extra = runC07Extra }
+
+var c07Extra func(c *vh.Ctx)
 
 func c07ClassifyRun(m c07Mode, r vh.RunResult) string { return "" }
